@@ -13,7 +13,15 @@ from pydsol.core.simulator import Simulator
 from harness import drive_devs as dd
 
 
-def run_model(conc_name, rng, end_t=6, maxev=14):
+def _finish(sim, trace, errors):
+    try:
+        sim.cleanup()
+    except Exception:
+        pass
+    return trace, errors
+
+
+def run_model(conc_name, rng, end_t=6, maxev=14, step_mode=False):
     c = dd.Conc(conc_name)
     sim = c.sim("tcl")
     trace, errors = [], []
@@ -66,6 +74,19 @@ def run_model(conc_name, rng, end_t=6, maxev=14):
         lst = L(m)
         sim.add_listener(Simulator.TIME_CHANGED_EVENT, lst)
         sim.add_listener(ReplicationInterface.WARMUP_EVENT, lst)
+        if step_mode:
+            # the events are executed one by one with step() on this thread (TIME_CHANGED is announced for every one of them)
+            for _ in range(4 * maxev):
+                try:
+                    nxt = None if sim.eventlist().is_empty() else sim.eventlist().peek_first()
+                    if nxt is None or c.back(nxt.time) > end_t or sim.run_state.name == "ENDED" or c.back(sim.simulator_time) >= end_t:
+                        break           # (a simulator whose clock has reached the end refuses further steps)
+                    sim.step()
+                except Exception as ex:
+                    errors.append(f"step() raised {type(ex).__name__}: {ex}")
+                    break
+                dd.wait_idle(sim)
+            return _finish(sim, trace, errors)
         sim.start()
         _time.sleep(0.001)
         dd.wait_idle(sim)
